@@ -135,8 +135,12 @@ class Report:
             print("VIOLATION property=%s replay=%s" % (self.prop, p))
         if self.violations:
             print("%s: %d violating state(s), %d distinct signature(s)" % (self.prop, len(self.violations), len(shown)))
-            for (tags, sig), n in list(shown.items())[:30]:
-                print("  %4d x %s  tags=%s" % (n, sig[:160], ",".join(tags)))
+            bysig = {}
+            for (tags, sig), n in shown.items():
+                e = bysig.setdefault(sig, [0, tags])
+                e[0] += n
+            for sig, (n, tags) in sorted(bysig.items(), key=lambda kv: -kv[1][0])[:40]:
+                print("  %5d x %s  e.g. tags=%s" % (n, sig[:160], ",".join(tags)))
         if not self.replay_mode:
             ev = {
                 "property_id": self.prop,
